@@ -475,6 +475,17 @@ func c11Adversarial(r *mon.Run, key *world.Key, jr *rand.Rand, idx int) {
 		} else if mustAccept {
 			c11Rejected(r, family, desc, d, t.cred, nil)
 		}
+		if !ok && pv == nil {
+			// a verifier trying again on the object it has just refused (a retry; Verify followed by ProofList.Verify): what the first
+			// attempt left in the object must not make the second one accept
+			ok2, pv2, _ := verifyList(gabi.ProofList{recv}, pks, ctx, nonce, false, nil)
+			r.Eval(family+"/reverify", outcome(ok2, pv2))
+			if ok2 {
+				c11Accepted(r, family+"-reverify", desc+" (second verification of the refused object)", recv, t)
+				r.Violation("C11/rejected-then-accepted-on-reverify", "a proof refused at first verification is accepted when the same object is verified again ("+family+": "+desc+")",
+					map[string]any{"family": family, "case": desc, "proof": dumpD(d)})
+			}
+		}
 		// object history: the same proof placed into an object that verified an honest proof of credential B before
 		if warm != nil && !ok {
 			w := cloneD(warm)
